@@ -491,11 +491,11 @@ _ONCE_VARIANTS = [
       (S, _G_EVAL, '\tjob := &blobJob{ks: ks, gen: genDesc}\n\tif _, err := job.describe(); err != nil {\n\t\treturn nil, nil, err\n\t}\n\tdesc, err := job.describe()\n\tif err != nil {\n\t\treturn nil, nil, err\n\t}\n\treturn s.Sign(ctx, desc, opts)\n'),
       (S, _GETDESC, _JOB + _GETDESC)]),
  # behaviour-preserving shapes around the single evaluation
- dict(name='benign-verifier-evaluates-through-closure-once', file=V, expect='silent', find=_V_EVAL,
-      replace='\tdescribe := func() (ocispec.Descriptor, error) { return descGenFunc(digestAlgo) }\n\tdesc, err := describe()\n'),
- dict(name='benign-getdescriptor-two-helpers-deep', expect='silent', edits=[
-      (S, _G_RET, '\treturn describeWith(genDesc, digestAlg)\n}\n'),
-      (SP, 'func (s *PluginSigner) getKeySpec(', 'func describeWith(gen notation.BlobDescriptorGenerator, alg digest.Algorithm) (ocispec.Descriptor, error) {\n\tdesc, err := gen(alg)\n\tif err != nil {\n\t\treturn ocispec.Descriptor{}, err\n\t}\n\treturn desc, nil\n}\n\nfunc (s *PluginSigner) getKeySpec(')]),
+ dict(name='benign-generic-signblob-evaluates-through-closure-once', file=S, expect='silent', find=_G_EVAL,
+      replace='\tdescribe := func() (ocispec.Descriptor, error) { return getDescriptor(ks, genDesc) }\n\tdesc, err := describe()\n\tif err != nil {\n\t\treturn nil, nil, err\n\t}\n\treturn s.Sign(ctx, desc, opts)\n'),
+ dict(name='benign-generic-signblob-two-helpers-deep', expect='silent', edits=[
+      (S, _G_EVAL, _G_EVAL.replace('getDescriptor(ks, genDesc)', 'describeBlob(genDesc, ks)')),
+      (S, _GETDESC, 'func describeBlob(gen notation.BlobDescriptorGenerator, ks signature.KeySpec) (ocispec.Descriptor, error) {\n\tdesc, err := getDescriptor(ks, gen)\n\tif err != nil {\n\t\treturn ocispec.Descriptor{}, err\n\t}\n\treturn desc, nil\n}\n\n' + _GETDESC)]),
  dict(name='benign-generic-signblob-evaluates-in-either-branch', file=S, expect='silent', find=_G_EVAL,
       replace='\tvar desc ocispec.Descriptor\n\tif opts.SignatureMediaType == "" {\n\t\tdesc, err = getDescriptor(ks, genDesc)\n\t\tlogger.Debug("No signature media type requested")\n\t} else {\n\t\tdesc, err = getDescriptor(ks, genDesc)\n\t}\n\tif err != nil {\n\t\treturn nil, nil, err\n\t}\n\treturn s.Sign(ctx, desc, opts)\n'),
  dict(name='benign-generic-signblob-object-holding-generator-described-once', expect='silent', edits=[
